@@ -231,6 +231,7 @@ func (e *Exec) schedule() *G {
 			}
 		}
 		if e.mainG.status == GBlocked {
+			e.findKey = "deadlock@" + e.harness
 			e.event("deadlock", "main goroutine blocked forever: "+e.mainG.waitDesc+e.blockedSummary())
 			panic(pathEnd{"deadlock"})
 		}
